@@ -16,6 +16,10 @@ type c08Case struct {
 	Debug   bool     `json:"debug"`
 	Invalid *CfgSpec `json:"invalid"`
 	Note    string   `json:"note,omitempty"`
+	// Via: how the prior configured state was reached: "new" (NewMiddleware), "zero-reconfigure",
+	// "reconfigure-from-other" (NewMiddleware(Other) then Reconfigure), "reconfigure-twice"
+	Via   string   `json:"via,omitempty"`
+	Other *CfgSpec `json:"other,omitempty"`
 }
 
 func c08Run(r *Run, l *Local, cs c08Case) {
@@ -35,7 +39,28 @@ func c08Run(r *Run, l *Local, cs c08Case) {
 		}
 	} else {
 		var err error
-		m, err = cors.NewMiddleware(cs.Prior.Config())
+		pc := cs.Prior.Config()
+		switch cs.Via {
+		case "zero-reconfigure":
+			m = new(cors.Middleware)
+			err = m.Reconfigure(&pc)
+		case "reconfigure-from-other", "reconfigure-twice":
+			oc := cs.Other.Config()
+			m, err = cors.NewMiddleware(oc)
+			if err == nil && cs.Via == "reconfigure-twice" {
+				pc2 := cs.Prior.Config()
+				err = m.Reconfigure(&pc2)
+				if err == nil {
+					oc2 := cs.Other.Config()
+					err = m.Reconfigure(&oc2)
+				}
+			}
+			if err == nil {
+				err = m.Reconfigure(&pc)
+			}
+		default:
+			m, err = cors.NewMiddleware(pc)
+		}
 		if err != nil {
 			return // C05's business
 		}
@@ -87,7 +112,7 @@ func c08Run(r *Run, l *Local, cs c08Case) {
 
 func TestVerif_C08(t *testing.T) {
 	r := newRun(t, "C08")
-	r.Rule("prior states: passthrough (zero value; Reconfigure(nil) after a configuration in debug mode) and accepted configurations (C02 product slice + C06 generator) x debug off/on " +
+	r.Rule("prior states: passthrough (zero value; Reconfigure(nil) after a configuration in debug mode) and accepted configurations (C02 product slice + C06 generator) reached by NewMiddleware, by Reconfigure on a zero value, or by one or three Reconfigure calls from another configuration, x debug off/on " +
 		"x invalid configurations from the C05 generator with 1..12 injected violation kinds, including ones invalid only in the first validated field (status), only in the last (ResponseHeaders), and ones whose valid fields differ from the current state in every aspect. " +
 		"Observed before and after: answers to the union of both configurations' request suites, Config(), and answers again after a no-op round trip. evaluation = one (state, invalid config) pair; non-trivial = pair with a configured prior state, distinct by hash")
 	r.Assume("invalid configurations are invalid by construction (S4)")
@@ -139,6 +164,13 @@ func TestVerif_C08(t *testing.T) {
 				continue
 			}
 			cs := c08Case{Prior: prior, Debug: rng.IntN(2) == 0, Invalid: inv, Note: note}
+			if prior != nil {
+				cs.Via = choose(rng, []string{"new", "zero-reconfigure", "reconfigure-from-other", "reconfigure-twice"})
+				if cs.Via == "reconfigure-from-other" || cs.Via == "reconfigure-twice" {
+					cs.Other = randRichValidCfg(rng)
+				}
+				l.counters["prior_via_"+cs.Via]++
+			}
 			c08Run(r, l, cs)
 			if prior != nil {
 				l.NontrivialKey(specKey(prior), specKey(inv), fmt.Sprint(cs.Debug))
